@@ -32,6 +32,14 @@ CHECKS = {
              "MustSkip / MustProcess; invalid patterns must be rejected as 'invalid' before anything is touched (sandbox snapshot).",
         note="Trusted: TLC, Go regexp source generated from the AST, snapshot of the sandbox. Known finding: Copy matches across the path separator.",
         technique="TLA+ regex semantics + TLC exhaustive scenario enumeration; replay on real filesystems; TLC trace validation"),
+    "C09": dict(
+        category="model_checking", design_ref="DESIGN.md 5/C09",
+        text="SafeIO.tla states, per observation of one real call, which clause of the statement it breaks (prefix, at most the maximum, exactly n or an error, too-large refusal, no read started "
+             "after the context is done, context kinds, EOF kind); FsCancel.tla models a loop that tests its context once per item and TLC checks that the work after a cancellation is bounded "
+             "independently of the remaining work (and is not when the test is removed). TLC enumerates the 3065 scenario classes of the I/O helpers, which run against scripted readers / writers; "
+             "16 context-accepting filesystem entry points are cancelled before the call and after the k-th backend call on trees of 100 and 400 entries on both backends; TLC judges every observation.",
+        note="Trusted: TLC, the scripted reader (records the context state at every Read), the gate's call counting, B = 32. Known finding: the fan-out of the garbage collection.",
+        technique="TLA+ rule specification + TLC-enumerated scenario classes; replay with scripted streams; cancellation sweep at the afero.Fs boundary; TLC trace validation"),
     "C10": dict(
         category="model_checking", design_ref="DESIGN.md 5/C10",
         text="The statement (Clamp over limb-encoded integers, ranges derived from bit widths) is checked by TLC for range, identity, idempotence, "
